@@ -22,6 +22,9 @@ EXPLANATION = (
     "ratio 255/100). R13.8: hue wraps modulo a full turn before the single-wrap helper. R13.9: routing of Color.parse. "
     "Not decided: the HSL<->RGB float formulas and rounding."
 )
+TECHNIQUE = (
+    "static analysis (no execution): 147-keyword if-chain vs CSS table incl. shadowing; hex layouts by partial evaluation on marker strings; channel bit-field layouts evaluated symbolically; regex-vs-converter language inclusion"
+)
 ASSUMPTIONS = [
     "spec/css_colors.txt is the oracle for keyword values (SVG 1.1 section 4.4).",
     "Channel arguments are treated as 8-bit values after Color.crimp (clamping itself is checked separately in R13.7).",
